@@ -43,12 +43,10 @@ theorem solo_step (i : Nat) {s : State} (hg : Good crc pl blob s) (tid k : Nat) 
     · exact ⟨_, hself s _ rfl, by simp [rank, hpc, finish], by simp [Solo, finish], rfl, rfl⟩
     · split
       · exact ⟨_, hself s _ rfl, by simp [rank, hpc, finish], by simp [Solo, finish], rfl, rfl⟩
-      · split
-        · exact ⟨_, hself s _ rfl, by simp [rank, hpc, finish], by simp [Solo, finish], rfl, rfl⟩
-        · refine ⟨_, hself s _ rfl, by simp [rank, hpc], ?_, rfl, rfl⟩
-          simp only [Solo, setThread]
-          refine ⟨?_, hq.2⟩
-          rw [hq.1]; simp
+      · refine ⟨_, hself s _ rfl, by simp [rank, hpc], ?_, rfl, rfl⟩
+        simp only [Solo, setThread]
+        refine ⟨?_, hq.2⟩
+        rw [hq.1]; simp
   case fastComplete =>
     obtain ⟨hidx, hemp⟩ := hq
     have hemp' : s.pieces[t.idx]? = some PStatus.empty := by rw [hidx]; exact hemp
@@ -200,6 +198,5 @@ theorem solo_delivery_completes (hpl : 0 < pl) {s : State} (hg : Good crc pl blo
     case errSum =>
       have : t'.idx = i := by have := hrt.1.2.2; rw [hpi] at this; omega
       exfalso; apply hrt.2; rw [this]; exact hpay
-    case panic => rw [hpi] at hrt; omega
 
 end KrakenModel.Proof.C19
